@@ -177,6 +177,13 @@ func (ls *loopScan) scan(fn *ssa.Function, blocks map[*ssa.BasicBlock]bool, dept
 					ls.pend = append(ls.pend, pendingWrite{key: k, addr: cc.Args[0], deep: depth > 0})
 					// the variadic argument array is a fresh allocation
 					continue
+				case "sort.Strings":
+					if s, ok := cc.Args[0].Type().Underlying().(*types.Slice); ok {
+						k := vc.elemKey(s.Elem())
+						ls.keys[k] = true
+						ls.pend = append(ls.pend, pendingWrite{key: k, addr: cc.Args[0], kind: 2, deep: depth > 0})
+					}
+					continue
 				case "sort.Slice":
 					if mi, ok := cc.Args[0].(*ssa.MakeInterface); ok {
 						if s, ok := mi.X.Type().Underlying().(*types.Slice); ok {
